@@ -2,7 +2,7 @@
    Statements only; every proof is `exact <lemma>`.                          *)
 From Coq Require Import ZArith NArith List Bool.
 From XV Require Import core.Value model.Hash model.Cache model.Seal model.Spec
-  proofs.Cache_lemmas proofs.Spec_lemmas proofs.Seal_lemmas.
+  proofs.Cache_lemmas proofs.Spec_lemmas proofs.Seal_lemmas proofs.Cyclic_lemmas proofs.Coherence_lemmas model.StateInv.
 Import ListNotations.
 
 (* seal(r) marks every configuration reachable from r - through parameters, lists, dicts,
@@ -37,3 +37,48 @@ Theorem C14_frozen_identity : forall H cs fuel h, ordered h -> forall ops s, cso
   Forall2 (frozen_answer H cs h) ops (snd (srun H cs fuel (h, s) ops)).
 Proof. exact frozen. Qed.
 Print Assumptions C14_frozen_identity.
+
+(* ANY graph (cycles included), EVERY history of assignments, meta-flag changes and added pre-tasks
+   (accepted exactly on unsealed configurations, rejected on sealed ones), seals and identifier
+   requests, from every state satisfying the invariant (sealed set closed under successors, cached
+   identifiers only on sealed configurations and correct): each identifier answered is the identifier
+   computed afresh, without any cache, of the graph as it is when the request is made.
+   The seal-gated cache is coherent although the graph keeps changing around the sealed part.   *)
+Theorem C14_coherent_under_edits : forall H cs fuel ops g, ginv H cs g ->
+  (forall o, In o ops -> op_ok (length (fst g)) o) ->
+  answers_ok H cs fuel g ops (snd (srun H cs fuel g ops)).
+Proof. exact coherent_under_edits. Qed.
+Print Assumptions C14_coherent_under_edits.
+
+(* ... and a sealed configuration keeps its stored content, its identifier and its full identifier
+   (job directory) through every such history, whatever is accepted elsewhere in the graph      *)
+Theorem C14_sealed_identity_stable : forall H cs fuel ops g, ginv H cs g ->
+  (forall o, In o ops -> op_ok (length (fst g)) o) ->
+  forall m, sealed_in (snd g) m = true ->
+  let g' := fst (srun H cs fuel g ops) in
+  sealed_in (snd g') m = true /\ nth_error (fst g') m = nth_error (fst g) m /\
+  (forall d e, pure_id H cs (fst g) m d e -> pure_id H cs (fst g') m d e) /\
+  (forall d, pure_full H cs (fst g) m d -> pure_full H cs (fst g') m d).
+Proof. exact sealed_identity_stable. Qed.
+Print Assumptions C14_sealed_identity_stable.
+
+Theorem C14_initial_state_invariant : forall H cs h flags, wf_heap h -> length flags = length h ->
+  closed h (map centry0 flags) -> ginv H cs (h, map centry0 flags).
+Proof. exact ginv_init. Qed.
+Print Assumptions C14_initial_state_invariant.
+
+(* the identifier of a configuration depends only on the configurations reachable from it: two
+   graphs that agree on a successor-closed set R give every node of R the same identifier      *)
+Theorem C14_identifier_frame : forall H cs h h' look (R : nat -> Prop),
+  (forall m, R m -> nth_error h m = nth_error h' m) ->
+  (forall m x, R m -> nth_error h m = Some x -> forall k, In k (succs x) -> R k) ->
+  forall fuel st m, R m -> hnode H cs h look fuel st m = hnode H cs h' look fuel st m.
+Proof. exact hnode_frame. Qed.
+Print Assumptions C14_identifier_frame.
+
+(* the invariant is decidable by computation: the correspondence run evaluates ginv_b (with SHA-256)
+   on every state exported from the implementation, so the hypothesis of the theorems above is
+   checked on the observed states                                                               *)
+Theorem C14_state_invariant_checkable : forall H cs fuel g, ginv_b H cs fuel g = true -> ginv H cs g.
+Proof. exact ginv_b_sound. Qed.
+Print Assumptions C14_state_invariant_checkable.
